@@ -103,7 +103,13 @@ class RemoteServer():
                 logger.info('New client: {}', cli_addr)
 
                 logger.debug('Waiting for initial context id and worker flag')
-                header = recv_msg(cli, comment='server: header')
+                try:
+                    header = recv_msg(cli, comment='server: header')
+                except ConnectionClosedError:
+                    logger.info('Client disconnected before sending a request')
+                    cli.close()
+                    continue
+
                 if header is None:
                     if self.close_on_none:
                         logger.info('"None" received')
@@ -123,19 +129,36 @@ class RemoteServer():
                             cli.close() # the client is waiting for an answer
                             continue
 
-                        ctx.call(cli)
+                        try:
+                            ctx.call(cli)
+                        except WorkerTerminatedError:
+                            raise
+                        except Exception:
+                            logger.exception('Could not create a worker within context {}', ctx_id)
+                            cli.close()
                     else:
                         logger.debug('Waiting for the RemoteWorker object...')
                         try:
                             child = recv_msg(cli, { '_socket': cli, '_reset_sigterm_hnd': True }, comment='server: remote worker')
-                        except ConnectionClosedError:
-                            logger.info('Client disconnected before child was successfully created')
+                        except WorkerTerminatedError:
+                            raise
+                        except Exception:
+                            logger.info('Client disconnected before child was successfully created', exc_info=1)
+                            cli.close()
                             continue
 
                         self.children.append(child)
                 else:
                     result = True
-                    context = recv_msg(cli, comment='server: context')
+                    try:
+                        context = recv_msg(cli, comment='server: context')
+                    except WorkerTerminatedError:
+                        raise
+                    except Exception:
+                        logger.info('Client disconnected before sending a context', exc_info=1)
+                        cli.close()
+                        continue
+
                     if context is None:
                         logger.info('Trying to delete context {}', ctx_id)
                         current = self.contexts.pop(ctx_id, None)
@@ -154,7 +177,10 @@ class RemoteServer():
                         else:
                             self.contexts[ctx_id] = context
 
-                    send_msg(cli, result, comment=f'server: context operation - {result}')
+                    try:
+                        send_msg(cli, result, comment=f'server: context operation - {result}')
+                    except ConnectionClosedError:
+                        logger.info('Client disconnected before receiving the result of a context operation')
         except (WorkerTerminatedError, KeyboardInterrupt):
             pass
         except Exception:
